@@ -35,13 +35,28 @@ def gen_repl_shape():
         if "self.prepare_globals_for_function(" not in txt or "self.push_frame(frame)?" not in txt or "self.run_fast()" not in txt:
             raise ExtractError(f"call_api/{name}: host call shape (prepare, push_frame, run_fast) not recognised")
     host_clears = ("clear_frames()" in kinds or "self.frames.clear()" in kinds) and ("clear_frames()" in cached or "self.frames.clear()" in cached)
-    host_syncs = "sync_current_function_globals" in kinds or "sync_globals_to_hashmap" in kinds
+    cached_gmap = len(re.findall(r"frame\s*\.\s*global_mapping_id\s*=\s*gmap_id\s*;", cached)) >= 2
     calls = strip_comments(rd("runtime/src/vm/dispatch/ops/calls.inc"))
-    n_ret = len(re.findall(r"if\s+needs_switch\s*&&\s*caller_gmap\s*!=\s*0\s*\{\s*self\.sync_current_function_globals\(\);", calls))
-    if n_ret < 2:
-        raise ExtractError("calls.inc: Return/Return0 no longer sync under `needs_switch && caller_gmap != 0`; Model/GlobalsSync.v:do_return is out of date")
-    out = [HEADER.format(src="driver/src/api/repl.rs, runtime/src/vm/call_api/{kinds,cached}.rs, runtime/src/vm/dispatch/ops/calls.inc"),
+    n_old = len(re.findall(r"if\s+needs_switch\s*&&\s*caller_gmap\s*!=\s*0\s*\{\s*self\.sync_current_function_globals\(\);", calls))
+    n_new = len(re.findall(r"if\s+needs_switch\s*&&\s*\(\s*caller_gmap\s*!=\s*0\s*\|\|\s*leaving_run_loop\s*\)\s*\{\s*self\.sync_current_function_globals\(\);", calls))
+    n_leave = len(re.findall(r"let\s+leaving_run_loop\s*=\s*self\.frames\.len\(\)\s*==\s*1\s*;", calls))
+    if n_new == 2 and n_leave == 2 and n_old == 0:
+        return_syncs_leaving = True
+    elif n_old == 2 and n_new == 0:
+        return_syncs_leaving = False
+    else:
+        raise ExtractError("calls.inc: the sync condition of Return/Return0 is not one of the two known shapes; Model/GlobalsSync.v:do_return is out of date")
+    run_rs = strip_comments(rd("runtime/src/vm/dispatch/run.rs"))
+    m = re.search(r"pub\s+fn\s+run_fast\s*\(\s*&mut\s+self\s*\)[^{]*\{", run_rs)
+    if not m:
+        raise ExtractError("run.rs: run_fast not found")
+    head = run_rs[m.end():m.end() + 600]
+    unwinds = (re.search(r"let\s+entry_depth\s*=\s*self\.frames\.len\(\)\.saturating_sub\(1\)\s*;", head) is not None
+               and re.search(r"if\s+result\.is_err\(\)\s*\{\s*self\.frames\.truncate\(entry_depth\)\s*;", head) is not None)
+    out = [HEADER.format(src="driver/src/api/repl.rs, runtime/src/vm/call_api/{kinds,cached}.rs, runtime/src/vm/dispatch/ops/calls.inc, runtime/src/vm/dispatch/run.rs"),
            f"Definition REPL_CLEARS_FRAMES_FIRST : bool := {b(clears_first)}.\n",
            f"Definition HOST_CALL_CLEARS_FRAMES : bool := {b(host_clears)}.\n",
-           f"Definition HOST_CALL_SYNCS_ON_RETURN : bool := {b(host_syncs)}.\n"]
+           f"Definition RETURN_SYNCS_WHEN_LEAVING : bool := {b(return_syncs_leaving)}.\n",
+           f"Definition CACHED_FRAME_HAS_MAPPING_ID : bool := {b(cached_gmap)}.\n",
+           f"Definition RUN_FAST_UNWINDS_ON_ERROR : bool := {b(unwinds)}.\n"]
     return write_if_changed("ReplShape.v", "".join(out))
